@@ -104,6 +104,37 @@ def _levels(R, rid, fn, self_id, spec_levels, need_key):
     return out
 
 
+def _closure_formula(body, atom):
+    """Boolean formula of a predicate closure body: the tail expression, with early exits folded in —
+    `if c { return x; } rest`  ==  if c then x else rest."""
+    b = H.peel(body, refs=False)
+    if b.get("k") != "block":
+        return B.formula(b, atom)
+    f = B.formula(b["tail"], atom) if "tail" in b else ("atom", "?no-result")
+    for st in reversed(b["stmts"]):
+        s0 = H.peel(st, refs=False)
+        if s0.get("k") == "if" and "else" not in s0:
+            r = _returned(s0["then"])
+            if r is not None:
+                f = ("ite", B.formula(s0["cond"], atom), B.formula(r, atom), f)
+        elif s0.get("k") == "ret" and "e" in s0:
+            f = B.formula(s0["e"], atom)
+    return f
+
+
+def _returned(blk):
+    """expression returned by a block that consists of `return e` only"""
+    b = H.peel(blk, refs=False)
+    if b.get("k") == "block":
+        items = b["stmts"] + ([b["tail"]] if "tail" in b else [])
+        if len(items) != 1:
+            return None
+        b = H.peel(items[0], refs=False)
+    if b.get("k") == "ret" and "e" in b:
+        return b["e"]
+    return None
+
+
 def _result_expr(body):
     """The expression a closure body evaluates to (tail of its block)."""
     b = H.peel(body, refs=False)
@@ -122,8 +153,10 @@ def _children_first(R, rid, lv, L, children, empties):
                    detail="no `%s.retain(..)` or no `%s.is_empty()` found at this level" % (c, c))
             continue
         ok = max(pos[id(x)] for x in rts) < min(pos[id(x)] for x in es)
-        R.inst(rid, "children-first:%s.%s" % (lv, c), ok, sp=rts[0]["sp"],
-               detail="the `%s` map must be filtered before the parent's keep-predicate reads `%s.is_empty()` (bottom-up removal)" % (c, c))
+        early = [x for x in H.walk(L["closure"], into_closures=False) if x.get("k") == "ret" and pos[id(x)] < max(pos[id(y)] for y in rts)]
+        R.inst(rid, "children-first:%s.%s" % (lv, c), ok and not early, sp=(early[0] if early else rts[0])["sp"],
+               detail=("an early `return` leaves the closure before the `%s` map is filtered" % c) if early else
+               "the `%s` map must be filtered before the parent's keep-predicate reads `%s.is_empty()` (bottom-up removal)" % (c, c))
 
 
 def _returns_self(R, rid, fn, self_id):
@@ -160,7 +193,7 @@ def r10_1(q, R, spec):
             continue
         sl = spec["levels"][lv]
         rec = {"empty": {}, "ns": [], "foreign": []}
-        f = B.formula(_result_expr(L["body"]) or {"k": "?"}, _remove_atom(L, rec))
+        f = _closure_formula(L["body"], _remove_atom(L, rec))
         name = ("atom", "name-present")
         tests = [("atom", "prefix:" + p) for p in sl["prefixes"]] + [("atom", "eq:" + e) for e in sl["equals"]]
         ph = tests[0]
@@ -401,7 +434,7 @@ def r10_2(q, R, spec):
         sl = spec["levels"][lv]
         # retention formula; the validator is the let-bound local of the result whose initialiser inspects `node.info` by pattern
         rec = {"empty": {}, "diff": [], "validator": {}}
-        f = B.formula(_result_expr(L["body"]) or {"k": "?"}, _insert_atom(L, rec))
+        f = _closure_formula(L["body"], _insert_atom(L, rec))
         ref = ("and", ("atom", "validator"), ("or", ("atom", "info-diff"), ("atom", "javadoc-diff")))
         for c in sl["children"]:
             ref = ("or", ref, ("not", ("atom", "empty:" + c)))
